@@ -133,6 +133,28 @@ fn blocking_oracle(p: &ProgInfo, tag: &str, sigp: &str, inputs: &[Vec<Vec<u64>>]
                 let exp: Vec<String> = v.iter().map(|x| x.to_string()).collect();
                 rec.check(exp == outs[t][last], &sig, &detail(&exp));
             }
+            "sortk_items" | "sortk_keys" | "sortk_fst" => {
+                // sort_by_key with the key `&x.1` of (x % 4, x) / `&x.1` of (x, x % 3) then the key / `&x.0`
+                // of (x % 4, x) then the key: the exact sequence
+                let mut v = i0.clone();
+                let exp: Vec<String> = match w[0] {
+                    "sortk_items" => {
+                        v.sort();
+                        v.iter().map(|x| format!("({},{})", x % 4, x)).collect()
+                    }
+                    "sortk_keys" => {
+                        let mut k: Vec<u64> = v.iter().map(|x| x % 3).collect();
+                        k.sort();
+                        k.iter().map(|x| x.to_string()).collect()
+                    }
+                    _ => {
+                        let mut k: Vec<u64> = v.iter().map(|x| x % 4).collect();
+                        k.sort();
+                        k.iter().map(|x| x.to_string()).collect()
+                    }
+                };
+                rec.check(exp == outs[t][last], &sig, &format!("prog={} tick={} expected={} got={}", p.name, t, show_stream(&exp, true), show_stream(&outs[t][last], true)));
+            }
             "persist" => expect(cum0.iter().map(|x| x.to_string()).collect(), rec),
             "unique" => {
                 let mut seen: Vec<u64> = if is_static(w[1]) { emitted.clone() } else { vec![] };
@@ -280,6 +302,122 @@ thread_local! {
     static SCHED_CACHE: std::cell::RefCell<BTreeMap<&'static str, Option<String>>> = const { std::cell::RefCell::new(BTreeMap::new()) };
 }
 
+/// an item in its canonical text: number, `()`, `(a,b)` (Vec / Option are cons chains)
+#[derive(Clone, Debug, PartialEq, Eq)]
+enum Val {
+    U,
+    N(u64),
+    P(Box<Val>, Box<Val>),
+}
+fn parse_val(s: &str) -> Option<Val> {
+    fn go(b: &[u8], i: &mut usize) -> Option<Val> {
+        if *i < b.len() && b[*i] == b'(' {
+            *i += 1;
+            if *i < b.len() && b[*i] == b')' {
+                *i += 1;
+                return Some(Val::U);
+            }
+            let a = go(b, i)?;
+            if *i >= b.len() || b[*i] != b',' {
+                return None;
+            }
+            *i += 1;
+            let c = go(b, i)?;
+            if *i >= b.len() || b[*i] != b')' {
+                return None;
+            }
+            *i += 1;
+            Some(Val::P(Box::new(a), Box::new(c)))
+        } else {
+            let st = *i;
+            while *i < b.len() && b[*i].is_ascii_digit() {
+                *i += 1;
+            }
+            std::str::from_utf8(&b[st..*i]).ok()?.parse().ok().map(Val::N)
+        }
+    }
+    let mut i = 0;
+    let v = go(s.as_bytes(), &mut i)?;
+    (i == s.len()).then_some(v)
+}
+/// Rust's `Ord` of the item types of the corpus on their canonical form (tuples lexicographic; `None` /
+/// the empty `Vec` = `()` before `Some` / a non-empty `Vec`)
+fn val_cmp(a: &Val, b: &Val) -> std::cmp::Ordering {
+    use std::cmp::Ordering::*;
+    match (a, b) {
+        (Val::N(x), Val::N(y)) => x.cmp(y),
+        (Val::U, Val::U) => Equal,
+        (Val::U, _) => Less,
+        (_, Val::U) => Greater,
+        (Val::P(a0, a1), Val::P(b0, b1)) => val_cmp(a0, b0).then_with(|| val_cmp(a1, b1)),
+        (Val::N(_), Val::P(..)) => Less,
+        (Val::P(..), Val::N(_)) => Greater,
+    }
+}
+
+/// sort / sort_by_key as documented: whatever feeds a sink straight from a sort (or through a union with an
+/// empty source, or a pass-through map) comes out in non-decreasing order of the key - on the raw emitted
+/// sequence, also where the corpus compares the sink as a bag (unstable sort on non-injective keys).
+fn sorted_oracle(name: &str, desc: &str, outs: &[Vec<Vec<String>>], sigp: &str, rec: &mut Recorder) {
+    let nodes: Vec<Vec<&str>> = desc.lines().filter(|l| l.starts_with("node ")).map(|l| l.split(' ').collect()).collect();
+    let find = |id: &str| nodes.iter().find(|w| w[1] == id);
+    let refs = |w: &Vec<&str>| -> Vec<String> { w.iter().skip_while(|x| **x != "<-").skip(1).map(|r| r.split('.').next().unwrap_or("").to_string()).collect() };
+    for (k, l) in desc.lines().filter(|l| l.starts_with("sink ")).enumerate() {
+        let Some(mut id) = l.split(' ').nth(2).and_then(|r| r.split('.').next()).map(|x| x.to_string()) else { continue };
+        // (key projection of the sorting operator, what the pass-through stages behind it did to the item)
+        let mut post: Vec<&str> = vec![];
+        let mut key: Option<&str> = None;
+        for _ in 0..8 {
+            let Some(w) = find(&id) else { break };
+            let r = refs(w);
+            match (w[2], w.get(3).copied().unwrap_or("")) {
+                ("sort", _) => {
+                    key = Some("self");
+                    break;
+                }
+                ("sort_by_key", kf) => {
+                    key = Some(kf);
+                    break;
+                }
+                ("map", "id") | ("identity", _) | ("tee", "1") | ("union", "1") => id = r[0].clone(),
+                ("map", f @ ("fst" | "snd")) => {
+                    post.push(f);
+                    id = r[0].clone();
+                }
+                ("union", "2") => {
+                    // union with an empty source
+                    let e: Vec<bool> = r.iter().map(|x| find(x).is_some_and(|n| n[2] == "empty")).collect();
+                    if e == [false, true] {
+                        id = r[0].clone();
+                    } else if e == [true, false] {
+                        id = r[1].clone();
+                    } else {
+                        break;
+                    }
+                }
+                _ => break,
+            }
+        }
+        let Some(key) = key else { continue };
+        // the observed items are projections of the sorted items: only judge when the projection keeps the key
+        let keyed: Option<fn(&Val) -> Option<Val>> = match (key, post.as_slice()) {
+            ("self", []) => Some(|v| Some(v.clone())),
+            ("kfst", []) => Some(|v| if let Val::P(a, _) = v { Some((**a).clone()) } else { None }),
+            ("ksnd", []) => Some(|v| if let Val::P(_, b) = v { Some((**b).clone()) } else { None }),
+            ("kfst", ["fst"]) | ("ksnd", ["snd"]) => Some(|v| Some(v.clone())),
+            _ => None,
+        };
+        let Some(kf) = keyed else { continue };
+        rec.count(&format!("sorted-oracle:{key}"));
+        for (t, tick) in outs.iter().enumerate() {
+            let Some(seq) = tick.get(k) else { continue };
+            let ks: Option<Vec<Val>> = seq.iter().map(|x| parse_val(x).and_then(|v| kf(&v))).collect();
+            let ok = ks.as_ref().is_some_and(|ks| ks.windows(2).all(|p| val_cmp(&p[0], &p[1]) != std::cmp::Ordering::Greater));
+            rec.check(ok, &format!("{sigp}@{}", if key == "self" { "sort" } else { "sort_by_key" }), &format!("prog={name} tick={t} sink={k} key={key} emitted={}", show_stream(seq, true)));
+        }
+    }
+}
+
 /// For a unit program `source -> [tee] -> OP -> [union with empty]` whose operator reads the raw
 /// source, the operator's documented result can be recomputed from the inputs without the model.
 fn unit_oracle_tag(p: &ProgInfo) -> Option<String> {
@@ -295,6 +433,14 @@ fn unit_oracle_tag(p: &ProgInfo) -> Option<String> {
         ops.push((id, it.next()?.to_string(), refs.trim().to_string()));
     }
     let core: Vec<&(usize, String, String)> = ops.iter().filter(|o| !(o.1.starts_with("source") || o.1.starts_with("tee") || o.1 == "empty" || o.1.starts_with("union"))).collect();
+    // (a `map kv3` = (x % 3, x) between the source and a keyed accumulator is what the oracle's keys assume)
+    let keyed_prep = core.len() == 2 && core[0].1 == "map kv3" && core[0].2.starts_with("0.") && core[1].1.starts_with("fold_keyed ") && core[1].1.ends_with(" sum") && {
+            let inn = core[1].2.split('.').next().unwrap_or("");
+            inn == core[0].0.to_string() || ops.iter().any(|o| o.0.to_string() == inn && o.1.starts_with("tee") && o.2.starts_with(&format!("{}.", core[0].0)))
+        };
+    if keyed_prep {
+        return Some(core[1].1.clone());
+    }
     if core.len() != 1 {
         return None;
     }
@@ -429,6 +575,18 @@ fn run_case(no: u64, p: &ProgInfo, inputs: &[Vec<Vec<u64>>], mode: &str, rec: &m
     // (b) the blocking operator's documented result from the raw inputs (C23 corpus)
     if p.kind == "blocking" {
         blocking_oracle(p, p.oracle, "blocking-input-incomplete", inputs, &outs, rec);
+    }
+    if p.kind == "keyed" {
+        blocking_oracle(p, p.oracle, "documented-result-violated", inputs, &outs, rec);
+        if let Some(Ok(vo)) = &vouts {
+            blocking_oracle(p, p.oracle, "variant-documented-result-violated", inputs, vo, rec);
+        }
+    }
+    if p.kind != "finding" {
+        sorted_oracle(p.name, p.desc, &outs, "output-not-sorted-by-key", rec);
+        if let Some(Ok(vo)) = &vouts {
+            sorted_oracle(p.name, p.vdesc, vo, "variant-output-not-sorted-by-key", rec);
+        }
     }
     if let Some(tag) = unit_oracle_tag(p) {
         rec.count("unit-oracle");
